@@ -257,6 +257,16 @@ theorem C18_merge_idem (fields) (l : List (Item α)) :
 
 theorem C18_sort_idem (l : List (Item α)) : sortLevel (sortLevel l) = sortLevel l := stableSort_idem _ l
 
+/-- **A level that is already in rank order is left exactly as it is** (not only "sorted again gives
+the same": any hand-ordered or previously processed level) -/
+theorem C18_sort_of_sorted (l : List (Item α)) (h : l.Pairwise (fun a b => a.rank ≤ b.rank)) :
+    sortLevel l = l := stableSort_of_sorted _ l h
+
+/-- the sort neither drops nor duplicates: same length, same membership -/
+theorem C18_sort_length_mem (l : List (Item α)) :
+    (sortLevel l).length = l.length ∧ ∀ x, x ∈ sortLevel l ↔ x ∈ l :=
+  ⟨(C18_sort_perm l).length_eq, fun _ => (C18_sort_perm l).mem_iff⟩
+
 theorem filter_rank_others (k : Nat) (l : List (Item α)) :
     (others l).filter (fun a => a.rank == k) = others (l.filter (fun a => a.rank == k)) := by
   simp only [others, List.filter_filter]
